@@ -49,6 +49,10 @@ type Conn struct {
 	Dropped int
 	// Strict makes subscribe/publish fail like nats.go v1.10.0 would on bad subjects.
 	Strict bool
+	// Blocking makes deliveries block on a full subscription channel (instead of dropping),
+	// holding a mutex that Close also takes - the behaviour of restest.MockConn.
+	Blocking bool
+	dmu      sync.Mutex
 	// FailSubscribe, if set, may return an error for the n-th (1-based) subscribe call.
 	FailSubscribe func(subject string, n int) error
 	// FailPublish, if set, may return an error for the n-th (1-based) publish call.
@@ -162,7 +166,39 @@ func (c *Conn) match(subject string) []*Sub {
 	return out
 }
 
+// blockingSend sends like a connection that blocks on the subscription channel
+// (restest.MockConn does); a send on a closed channel is counted, not propagated.
+func blockingSend(ch chan *nats.Msg, m *nats.Msg) (ok bool) {
+	defer func() {
+		if recover() != nil {
+			atomic.AddInt64(&closedChanSends, 1)
+			ok = false
+		}
+	}()
+	ch <- m
+	return true
+}
+
 func (c *Conn) deliver(targets []*Sub, subject, reply string, payload []byte) int {
+	if c.Blocking {
+		// deliveries block on a full channel while holding the delivery mutex that Close takes
+		c.dmu.Lock()
+		defer c.dmu.Unlock()
+		c.mu.Lock()
+		closed := c.Closed > 0
+		c.mu.Unlock()
+		if closed {
+			return 0
+		}
+		n := 0
+		for _, s := range targets {
+			m := &nats.Msg{Subject: subject, Reply: reply, Data: append([]byte(nil), payload...), Sub: s.NSub}
+			if blockingSend(s.Ch, m) {
+				n++
+			}
+		}
+		return n
+	}
 	// The (non-blocking) sends happen under the connection mutex so that, like
 	// with a real client, nothing is delivered once Close has returned.
 	c.mu.Lock()
@@ -284,6 +320,10 @@ func (c *Conn) Unsubscribe(ch chan *nats.Msg) {
 
 // Close implements res.Conn.
 func (c *Conn) Close() {
+	if c.Blocking {
+		c.dmu.Lock()
+		defer c.dmu.Unlock()
+	}
 	c.mu.Lock()
 	c.Closed++
 	c.log = append(c.log, Entry{Seq: len(c.log), Kind: "close"})
